@@ -184,6 +184,7 @@ impl L2Check {
             reopen: rng.chance(0.3),
             compact: false,
             avoid: Vec::new(),
+            compact_at: None,
         };
         match self.id {
             "C13" => {
@@ -202,6 +203,12 @@ impl L2Check {
                 k.w_stmt[9] = 6;
                 k.w_stmt[13] = 5;
                 k.w_stmt[7] = 4;
+                if rng.chance(0.4) {
+                    // relationships in a compacted segment, endpoints deleted afterwards
+                    k.n_ops = rng.range(4, 12) as usize;
+                    k.compact_at = Some(rng.range(1, k.n_ops as u64 - 2) as usize);
+                    k.reopen = false;
+                }
             }
             _ => {
                 // C24
